@@ -85,6 +85,11 @@ OptClause(cfg, s, e) ==
     [] e.raised -> "raised"
     [] ~e.finite -> "nonfinite"
     [] lhs # K!GradRHS(in) -> "opt_gradient"
+    \* rows corrected by Triggs with rho'' > 0 and R # 0 carry the second-order term also when the corrector runs inside
+    \* the optimiser's step (which disables gradient recording around it)
+    [] e.act = "gn" /\ (LET M == {i \in K!MaskedIdx(in) :
+                                  (IF Len(cfg.corrs) = 1 THEN cfg.corrs[1] ELSE cfg.corrs[e.grp[i]]) = "Triggs"} IN
+                        M # {} /\ K!HessLHS(OutOf(e.Rp, e.Jp), M) # K!HessRHS(in, M)) -> "opt_hessian"
     [] Dy(e.loss) # loss -> "opt_loss"
     [] DyVec(e.lgrad) # K!ScaleVec(K!Two, lhs) -> "opt_descent"
     [] OTHER -> "ok"
